@@ -99,7 +99,7 @@ def canonicity_run(ctx, tier, seed):
     two statements hold the same handle iff z3 proves their (substituted) acceptance formulas equivalent"""
     nat = ctx.native(); stats = {'queries': 0, 'obligations': 0, 'solver_s': 0.0}
     confirmed = []; inconclusive = []; nprog = 0; pairs = 0
-    progs = programs(tier, seed)[: (60 if tier == 'quick' else 400)]
+    progs = programs(tier, seed)[: (110 if tier == 'quick' else 500)]
     s = z3.Solver()
     for pi, (txt, names, acs, origin) in enumerate(progs):
         for mode in ('native', 'bridge', 'hybrid', 'hybrid_noopt'):
@@ -124,7 +124,7 @@ def canonicity_run(ctx, tier, seed):
             for n in cn:
                 f = T.to_z3(acs[n], lambda a: X[a])
                 F.append(z3.substitute(f, *sub) if sub else f)
-            lim = min(len(cn), 12)
+            lim = min(len(cn), 16)
             for i in range(lim):
                 for j in range(i):
                     pairs += 1; stats['queries'] += 1
